@@ -104,7 +104,7 @@ func (e *Evaluator) parse(expression string) error {
 			unaryOp = nil
 		}
 		if opIndex == i {
-			if op != nil && op.EvaluateUnary != nil && i == 0 {
+			if op != nil && op.EvaluateUnary != nil && !haveOperand {
 				i = opIndex + len(op.Symbol)
 				if unaryOp != nil {
 					return errs.Newf("consecutive unary operators are not allowed at index %d", i)
@@ -112,13 +112,11 @@ func (e *Evaluator) parse(expression string) error {
 				unaryOp = op
 			} else {
 				var err error
-				if i, err = e.processOperator(expression, opIndex, op, haveOperand, unaryOp); err != nil {
+				if i, op, err = e.processOperator(expression, opIndex, op, haveOperand, unaryOp); err != nil {
 					return err
 				}
 				unaryOp = nil
-			}
-			if op == nil || op.Symbol != ")" {
-				haveOperand = false
+				haveOperand = op != nil && op.Symbol == ")"
 			}
 		}
 	}
@@ -165,20 +163,15 @@ func (e *Evaluator) processOperand(expression string, start, opIndex int, unaryO
 	return opIndex, nil
 }
 
-func (e *Evaluator) processOperator(expression string, index int, op *Operator, haveOperand bool, unaryOp *Operator) (int, error) {
+func (e *Evaluator) processOperator(expression string, index int, op *Operator, haveOperand bool, unaryOp *Operator) (int, *Operator, error) {
 	if haveOperand && op != nil && op.Symbol == "(" {
 		var err error
 		index, op, err = e.processFunction(expression, index)
 		if err != nil {
-			return -1, err
+			return -1, nil, err
 		}
-		index += len(op.Symbol)
-		var tmp int
-		tmp, op = e.nextOperator(expression, index, nil)
-		if op == nil {
-			return index, nil
-		}
-		index = tmp
+		// The function call (through its closing parenthesis) has been consumed and is now an operand
+		return index + len(op.Symbol), op, nil
 	}
 	switch op.Symbol {
 	case "(":
@@ -200,14 +193,17 @@ func (e *Evaluator) processOperator(expression string, index int, op *Operator, 
 			}
 		}
 		if len(e.operatorStack) == 0 {
-			return -1, errs.Newf("invalid expression at index %d", index)
+			return -1, nil, errs.Newf("invalid expression at index %d", index)
 		}
 		stackOp = e.operatorStack[len(e.operatorStack)-1]
 		if stackOp.op.Symbol != "(" {
-			return -1, errs.Newf("invalid expression at index %d", index)
+			return -1, nil, errs.Newf("invalid expression at index %d", index)
 		}
 		e.operatorStack = e.operatorStack[:len(e.operatorStack)-1]
 		if stackOp.unaryOp != nil {
+			if len(e.operandStack) == 0 {
+				return -1, nil, errs.Newf("invalid expression at index %d", index)
+			}
 			left := e.operandStack[len(e.operandStack)-1]
 			e.operandStack = e.operandStack[:len(e.operandStack)-1]
 			e.operandStack = append(e.operandStack, &expressionTree{
@@ -233,7 +229,7 @@ func (e *Evaluator) processOperator(expression string, index int, op *Operator, 
 			unaryOp: unaryOp,
 		})
 	}
-	return index + len(op.Symbol), nil
+	return index + len(op.Symbol), op, nil
 }
 
 func (e *Evaluator) processFunction(expression string, opIndex int) (int, *Operator, error) {
